@@ -546,20 +546,20 @@ def judge_memo(inp, obs, lr):
 
 CLAUSES = [
     Clause("accepted_corr", "corr", gen_acc_t, run_acc, judge_acc, lean=lean_acc, site="Representation.automaton_accepted",
-           budget={"quick": 90, "thorough": 6000},
+           budget={"quick": 200, "thorough": 9000},
            what="automaton_accepted vs the Lean model over Q: small automata (all <=3 states/<=2 labels in thorough, sampled in quick), random <=8 states/4 labels, built-ins, k-multiples (multi-letter labels), hidden vertices, several start vertices; L=0..5; all option combinations x start/end state; memo-reuse sequences; (word, matrix) lists compared as multisets; enumerate_words vs model"),
     Clause("free_corr", "corr", gen_free, run_free, judge_free, lean=lean_free, site="fsa.free_automaton / freely_reduced_elements",
-           budget={"quick": 40, "thorough": 800},
+           budget={"quick": 60, "thorough": 2400},
            what="free_automaton graph, freely_reduced_elements, free_words_of_length/less_than vs model"),
     Clause("paths_oracle", "oracle", gen_paths, run_paths, judge_paths, site="Representation.automaton_accepted",
-           budget={"quick": 200, "thorough": 6000},
+           budget={"quick": 500, "thorough": 18000},
            what="returned words = words of a 20-line reference path enumerator (start/end, =L/<=L) as multisets; matrix k = rep[word k]; with_words=False returns the same matrices; agreement with enumerate_words"),
     Clause("single_oracle", "oracle", gen_single, run_single, judge_single, site="Representation.automaton_accepted(edge_words=False)",
-           budget={"quick": 80, "thorough": 2000}, what="edge_words=False agrees with edge_words=True on one-letter labels"),
+           budget={"quick": 150, "thorough": 6000}, what="edge_words=False agrees with edge_words=True on one-letter labels"),
     Clause("free_oracle", "oracle", gen_free, run_freeo, judge_freeo, site="Representation.freely_reduced_elements",
-           budget={"quick": 60, "thorough": 1500},
+           budget={"quick": 100, "thorough": 4500},
            what="freely_reduced_elements / free_words_of_length return each freely reduced word exactly once, with its image"),
     Clause("memo_oracle", "oracle", gen_memo, run_memo, judge_memo, site="Representation.automaton_accepted(precomputed=...)",
-           budget={"quick": 120, "thorough": 3000},
+           budget={"quick": 200, "thorough": 9000},
            what="a caller-supplied precomputed dict reused across calls (different lengths/states; same and different options) gives the results of fresh calls"),
 ]
